@@ -18,6 +18,14 @@
    replayed against the real code before the fix and is kept as the regression test
    corpus/C19/d26_consumer_abort_full_channel.json, which now passes.
 
+   Model parameter `sdrain`: true = sendOutgoing as it is (in node.go and, the same loop, in
+   untrusted_node.go): after a failed socket write it keeps emptying its queue until the queue is closed;
+   all theorems are for sdrain = true (the fourth argument `true` of run / step / prompt below);
+   C19_sender_returns_refuted is the witness for a sender that returns on the first failed write: a
+   deadlock.  The untrusted node's own Run (its reader, its sender, its 100-slot queue, its phased
+   shutdown) is the same protocol in small; harness component "untrusted" runs a real UntrustedNode
+   against a peer that never reads and ties this part to the code.
+
    ONE schedule of today's code is excluded by an explicit hypothesis, stated below with a witness:
    `prompt acts = true` (D27): whenever the run loop (or monitorUntrustedNodes) reads a thread counter
    as zero, every goroutine started for that class has already executed its first statement, the
@@ -34,15 +42,15 @@ From V.proofs Require Import Shutdown_Proofs Shutdown_Term_Proofs Shutdown_Witne
    exists any more in any state - in particular none that could invoke a handler - and no handler
    invocation has happened while stopped was true *)
 Theorem C19_stopped_silent : forall (cap : Z) (ucfg daf : bool) (acts : list act),
-  prompt cap ucfg daf acts = true ->
-  let w := run cap ucfg daf acts in
+  prompt cap ucfg daf true acts = true ->
+  let w := run cap ucfg daf true acts in
   stopped w = true ->
   pc_of w = RDone /\ all_dead (w_thr w) /\ d_late (w_dat w) = false.
 Proof. exact stopped_silent. Qed.
 Print Assumptions C19_stopped_silent.
 
 Theorem C19_never_late : forall (cap : Z) (ucfg daf : bool) (acts : list act),
-  prompt cap ucfg daf acts = true -> d_late (w_dat (run cap ucfg daf acts)) = false.
+  prompt cap ucfg daf true acts = true -> d_late (w_dat (run cap ucfg daf true acts)) = false.
 Proof. exact never_late. Qed.
 Print Assumptions C19_never_late.
 
@@ -50,8 +58,8 @@ Print Assumptions C19_never_late.
    from the end of the save phase until the next connection, and for ever once stopped, what is stored
    is the final in-memory data *)
 Theorem C19_saved_on_stop : forall (cap : Z) (ucfg daf : bool) (acts : list act),
-  prompt cap ucfg daf acts = true ->
-  let w := run cap ucfg daf acts in
+  prompt cap ucfg daf true acts = true ->
+  let w := run cap ucfg daf true acts in
   (pc_of w = RSave -> all_dead (w_thr w) /\ n_in (w_cnt w) = 0 /\ n_proc (w_cnt w) = 0 /\ n_un (w_cnt w) = 0) /\
   (saved_pc (pc_of w) = true -> d_disk (w_dat w) = d_mem (w_dat w)) /\
   (stopped w = true -> d_disk (w_dat w) = d_mem (w_dat w)).
@@ -65,19 +73,19 @@ Print Assumptions C19_saved_on_stop.
        request, a restart, an abort) and until stopped, some step of the run loop or of a goroutine
        is enabled *)
 Theorem C19_stop_progress : forall (cap : Z) (ucfg : bool) (acts : list act),
-  1 <= cap -> prompt cap ucfg true acts = true ->
-  let w := run cap ucfg true acts in
+  1 <= cap -> prompt cap ucfg true true acts = true ->
+  let w := run cap ucfg true true acts in
   stopping w = true -> stopped w = false ->
-  exists a, benign a = true /\ thread_act a = true /\ prompt_ok w a = true /\ step cap ucfg true w a <> None.
+  exists a, benign a = true /\ thread_act a = true /\ prompt_ok w a = true /\ step cap ucfg true true w a <> None.
 Proof. exact stop_progress_fixed. Qed.
 Print Assumptions C19_stop_progress.
 
 (* ... for either consumer: the only reachable stuck states are the D26 states *)
 Theorem C19_stop_progress_any : forall (cap : Z) (ucfg daf : bool) (acts : list act),
-  1 <= cap -> prompt cap ucfg daf acts = true ->
-  let w := run cap ucfg daf acts in
+  1 <= cap -> prompt cap ucfg daf true acts = true ->
+  let w := run cap ucfg daf true acts in
   stopping w = true -> stopped w = false -> d26_state cap w = false ->
-  exists a, benign a = true /\ thread_act a = true /\ prompt_ok w a = true /\ step cap ucfg daf w a <> None.
+  exists a, benign a = true /\ thread_act a = true /\ prompt_ok w a = true /\ step cap ucfg daf true w a <> None.
 Proof. exact stop_progress_reachable. Qed.
 Print Assumptions C19_stop_progress_any.
 
@@ -87,11 +95,11 @@ Print Assumptions C19_stop_progress_any.
        by accepted untrusted-peer messages; rank is a natural-number measure of phase, program points,
        remaining body lengths and channel fill (model/Shutdown.v `rank`) *)
 Theorem C19_stop_bounded_work : forall (cap : Z) (ucfg daf : bool) (acts acts' : list act),
-  prompt cap ucfg daf (acts ++ acts') = true ->
-  let w := run cap ucfg daf acts in
+  prompt cap ucfg daf true (acts ++ acts') = true ->
+  let w := run cap ucfg daf true acts in
   stopcall w = 2 ->
-  0 <= rank (run_from cap ucfg daf w acts') /\
-  rank (run_from cap ucfg daf w acts') + effective cap ucfg daf w acts' <= rank w + injected cap ucfg daf w acts'.
+  0 <= rank (run_from cap ucfg daf true w acts') /\
+  rank (run_from cap ucfg daf true w acts') + effective cap ucfg daf w acts' <= rank w + injected cap ucfg daf w acts'.
 Proof. exact stop_bounded_work_reachable. Qed.
 Print Assumptions C19_stop_bounded_work.
 
@@ -99,26 +107,26 @@ Print Assumptions C19_stop_bounded_work.
    "Stop all"; that goroutine is then never blocked, each of its steps brings it closer (mu_dist) and
    no other step takes it further away: under the fairness assumption the injection ends *)
 Theorem C19_injection_needs_mu : forall (cap : Z) (ucfg daf : bool) (acts : list act) (n : nat),
-  prompt cap ucfg daf acts = true ->
-  let w := run cap ucfg daf acts in
-  step cap ucfg daf w (AUnMsg n) <> None ->
-  exists p f, thread w MU = TLive p f /\ p <> PWaitUn /\ step cap ucfg daf w (AStep MU KEnd 0) <> None.
+  prompt cap ucfg daf true acts = true ->
+  let w := run cap ucfg daf true acts in
+  step cap ucfg daf true w (AUnMsg n) <> None ->
+  exists p f, thread w MU = TLive p f /\ p <> PWaitUn /\ step cap ucfg daf true w (AStep MU KEnd 0) <> None.
 Proof. exact injection_needs_mu_reachable. Qed.
 Print Assumptions C19_injection_needs_mu.
 
 Theorem C19_mu_dist_decreases : forall (cap : Z) (ucfg daf : bool) (acts : list act) (a : act) (w' : sw),
-  let w := run cap ucfg daf acts in
-  stopping w = true -> (a = AReg MU \/ exists k n, a = AStep MU k n) -> step cap ucfg daf w a = Some w' ->
+  let w := run cap ucfg daf true acts in
+  stopping w = true -> (a = AReg MU \/ exists k n, a = AStep MU k n) -> step cap ucfg daf true w a = Some w' ->
   (forall f, thread w MU <> TLive PWaitUn f) ->
   mu_dist ucfg w' < mu_dist ucfg w.
 Proof. exact mu_dist_decreases_reachable. Qed.
 Print Assumptions C19_mu_dist_decreases.
 
 Theorem C19_mu_dist_stable : forall (cap : Z) (ucfg daf : bool) (acts : list act) (a : act) (w' : sw),
-  prompt cap ucfg daf acts = true ->
-  let w := run cap ucfg daf acts in
+  prompt cap ucfg daf true acts = true ->
+  let w := run cap ucfg daf true acts in
   stopping w = true -> hard w = true ->
-  a <> AReg MU -> (forall k n, a <> AStep MU k n) -> step cap ucfg daf w a = Some w' ->
+  a <> AReg MU -> (forall k n, a <> AStep MU k n) -> step cap ucfg daf true w a = Some w' ->
   mu_dist ucfg w' <= mu_dist ucfg w.
 Proof. exact mu_dist_stable_reachable. Qed.
 Print Assumptions C19_mu_dist_stable.
@@ -126,11 +134,11 @@ Print Assumptions C19_mu_dist_stable.
 (* (3) from every reachable state of the code as it is, after a stop request, a schedule of at most
        rank(w) run-loop / goroutine steps reaches stopped = true *)
 Theorem C19_stop_reaches_stopped : forall (cap : Z) (ucfg : bool) (acts : list act),
-  1 <= cap -> prompt cap ucfg true acts = true ->
-  let w := run cap ucfg true acts in
+  1 <= cap -> prompt cap ucfg true true acts = true ->
+  let w := run cap ucfg true true acts in
   stopcall w = 2 ->
-  exists acts', forallb thread_act acts' = true /\ prompt_from cap ucfg true w acts' = true /\
-                Z.of_nat (length acts') <= rank w /\ stopped (run_from cap ucfg true w acts') = true.
+  exists acts', forallb thread_act acts' = true /\ prompt_from cap ucfg true true w acts' = true /\
+                Z.of_nat (length acts') <= rank w /\ stopped (run_from cap ucfg true true w acts') = true.
 Proof. exact stop_reaches_stopped_fixed. Qed.
 Print Assumptions C19_stop_reaches_stopped.
 
@@ -138,21 +146,32 @@ Print Assumptions C19_stop_reaches_stopped.
    after the stop request in which no step of the run loop or of any goroutine is enabled, and from
    which stopped is never reached whatever happens later *)
 Theorem C19_d26_refuted :
-  exists acts, prompt 100 false false acts = true /\
-    let w := run 100 false false acts in
+  exists acts, prompt 100 false false true acts = true /\
+    let w := run 100 false false true acts in
     stopcall w = 2 /\ stopped w = false /\ d26_state 100 w = true /\
-    (forall a, thread_act a = true -> step 100 false false w a = None) /\
-    (forall acts', stopped (run_from 100 false false w acts') = false).
+    (forall a, thread_act a = true -> step 100 false false true w a = None) /\
+    (forall acts', stopped (run_from 100 false false true w acts') = false).
 Proof. exact d26_refuted. Qed.
 Print Assumptions C19_d26_refuted.
 
+(* a sendOutgoing that returns on the first failed write (sdrain = false): with its queue full and the
+   reader waiting inside Add, after Stop no action whatsoever is enabled and stopped is never reached *)
+Theorem C19_sender_returns_refuted :
+  exists acts, prompt 100 false true false acts = true /\
+    let w := run 100 false true false acts in
+    stopcall w = 2 /\ stopped w = false /\
+    (forall a, step 100 false true false w a = None) /\
+    (forall acts', stopped (run_from 100 false true false w acts') = false).
+Proof. exact sender_returns_refuted. Qed.
+Print Assumptions C19_sender_returns_refuted.
+
 (* D27: without the prompt-registration hypothesis both safety theorems fail (code as it is) *)
 Theorem C19_d27_refuted :
-  exists acts, prompt 100 false true acts = false /\
-    let w := run 100 false true acts in
+  exists acts, prompt 100 false true true acts = false /\
+    let w := run 100 false true true acts in
     stopped w = true /\ d_late (w_dat w) = true /\ d_disk (w_dat w) <> d_mem (w_dat w) /\
-    exists pre post, acts = pre ++ ARun true :: post /\ prompt 100 false true pre = true /\
-                     pc_of (run 100 false true pre) = RWaitProc /\ thread (run 100 false true pre) PU = TSpawned.
+    exists pre post, acts = pre ++ ARun true :: post /\ prompt 100 false true true pre = true /\
+                     pc_of (run 100 false true true pre) = RWaitProc /\ thread (run 100 false true true pre) PU = TSpawned.
 Proof. exact d27_refuted. Qed.
 Print Assumptions C19_d27_refuted.
 
@@ -160,10 +179,10 @@ Print Assumptions C19_d27_refuted.
    the run loop is back at its head every goroutine of the old round has ended, everything was saved,
    the in-memory data are unchanged, and the stop flags are reset. *)
 Theorem C19_restart_resumes : forall (cap : Z) (ucfg daf : bool) (acts : list act),
-  prompt cap ucfg daf acts = true ->
-  let w := run cap ucfg daf acts in
+  prompt cap ucfg daf true acts = true ->
+  let w := run cap ucfg daf true acts in
   pc_of w = RDecide -> needs w = true -> hard w = false ->
-  let w' := apply cap ucfg daf w (ARun true) in
+  let w' := apply cap ucfg daf true w (ARun true) in
   pc_of w' = RLoop /\ stopping w' = false /\ needs w' = false /\ stopped w' = false /\
   all_dead (w_thr w') /\ d_disk (w_dat w') = d_mem (w_dat w') /\ d_mem (w_dat w') = d_mem (w_dat w).
 Proof. exact restart_resumes. Qed.
@@ -187,8 +206,8 @@ Proof. exact reconnect_resumes_sync. Qed.
 Print Assumptions C19_reconnect_resumes.
 
 (* the scenario runner of the correspondence check only takes steps of the transition system *)
-Theorem C19_settle_reach : forall fuel listen a b c w,
-  exists acts, settle fuel listen a b c w = run_from scap false true w acts.
+Theorem C19_settle_reach : forall fuel listen a b c d w,
+  exists acts, settle fuel listen a b c d w = run_from scap false true true w acts.
 Proof. exact settle_reach. Qed.
 Print Assumptions C19_settle_reach.
 
@@ -206,8 +225,8 @@ Example C19_example_acts : list act :=
   [ARun true; ARun true] ++ regs ++ [m] ++ msg ++ [APeerClose; m] ++ down ++
   [ARun true; ARun true] ++ regs ++ [m] ++ msg ++ [AStopFlag; AStopReq] ++ down ++ [ARun true].
 Example C19_example :
-  prompt 100 false true C19_example_acts = true /\
-  let w := run 100 false true C19_example_acts in
+  prompt 100 false true true C19_example_acts = true /\
+  let w := run 100 false true true C19_example_acts in
   stopped w = true /\ w_gen w = 2 /\ d_calls (w_dat w) = 6 /\ d_mem (w_dat w) = 4 /\ d_disk (w_dat w) = 4 /\
   d_late (w_dat w) = false /\ stopcall w = 2.
 Proof. vm_compute. repeat split; reflexivity. Qed.
@@ -216,8 +235,36 @@ Proof. vm_compute. repeat split; reflexivity. Qed.
    C19_stop_reaches_stopped hold and its bound is 17 steps *)
 Example C19_example_stop_requested :
   let acts := firstn 28 C19_example_acts ++ [AStopFlag; AStopReq] in
-  prompt 100 false true acts = true /\ stopcall (run 100 false true acts) = 2 /\ stopped (run 100 false true acts) = false /\
-  rank (run 100 false true acts) = 17.
+  prompt 100 false true true acts = true /\ stopcall (run 100 false true true acts) = 2 /\ stopped (run 100 false true true acts) = false /\
+  rank (run 100 false true true acts) = 17.
+Proof. vm_compute. repeat split; reflexivity. Qed.
+
+(* Stop arriving INSIDE the shutdown that precedes a reconnect: the trusted connection is lost,
+   monitorIncoming requests a restart (stopping, needsRestart), the run loop has already logged
+   "Stopping" and closed the connection when the application calls Stop (hardStop).  The restart-or-stop
+   test is made at the END of the shutdown and reads hardStop there: the node stops, it does not connect
+   again (w_gen stays 1).  A run loop that decided at the start of the shutdown would reconnect. *)
+Example C19_example_stop_in_restart_shutdown :
+  let m := AStep MI KEnd 0 in
+  let pre := [ARun true; ARun true; AReg MI; AReg RT; AReg SO; AReg PB; AReg PU; AReg CD; m; APeerClose; m; ARun true; ARun true] in
+  let post := [AStep RT KEnd 0; AStep PB KEnd 0; AStep CD KEnd 0; ARun true; ARun true; ARun true;
+               AStep SO KEnd 0; AStep SO KEnd 0; AStep SO KEnd 0; AStep PU KEnd 0; ARun true; ARun true; ARun true; ARun true] in
+  let w1 := run 100 false true true pre in
+  let w2 := run 100 false true true (pre ++ [AStopFlag; AStopReq] ++ post) in
+  prompt 100 false true true (pre ++ [AStopFlag; AStopReq] ++ post) = true /\
+  pc_of w1 = RWaitIn /\ stopping w1 = true /\ needs w1 = true /\ hard w1 = false /\ w_conn w1 = CNone /\
+  stopped w2 = true /\ w_gen w2 = 1 /\ pc_of w2 = RDone /\
+  (* without the Stop the same schedule restarts: the run loop is about to connect again *)
+  pc_of (run 100 false true true (pre ++ post)) = RConnect /\ stopped (run 100 false true true (pre ++ post)) = false.
+Proof. vm_compute. repeat split; reflexivity. Qed.
+
+(* the scenario model on the two new scenario kinds: Stop inside the restart shutdown (hit, returned,
+   Run returned, NOT reconnected) and the untrusted node whose peer never reads (queue full, Stop, Run returns) *)
+Example C19_example_new_scenarios :
+  srun [SStart; SAccept; SVersion; SHeaders 2; SBlocks 1; SCloseStop; SQuiet; SStored; SAnnounced]
+  = [[0]; [0; 1; 0]; [0; 1; 1; 0]; [0; 2]; [0; 1]; [0; 1; 1; 1; 0]; [0; 0; 0]; [0; 1; 1; 1; 1; 0; 0; 1; 0; 0]; [0; 1; 1]] /\
+  urun [UStart; UCounts; UFill; UCounts; UStop; UCounts] = [[0; 1; 1]; [0; 2; 1]; [0; 1]; [0; 2; 1]; [0; 1]; [0; 0; 0]] /\
+  urun [UStart; UFill; UReset; UStop] = [[0; 1; 1]; [0; 1]; [0]; [0; 1]].
 Proof. vm_compute. repeat split; reflexivity. Qed.
 
 (* the scenario model (code as it is) on the regression scenario of D26: the consumer fails while the
